@@ -41,7 +41,7 @@ ASSUMPTIONS = [
 ]
 SHARD_TIMEOUT = {"quick": 900, "thorough": 5400}
 
-PROFILE = dict(interpreted_functions=0.15, undefined_init=0.25, invariants=0.3, coinciding_forall=0.08)
+PROFILE = dict(interpreted_functions=0.15, undefined_init=0.25, invariants=0.3, coinciding_forall=0.08, int_params=0.12)
 BOUNDS = {"quick": dict(n=1000, depth=3, max_states=40, max_inst=40, walk=45), "thorough": dict(n=3000, depth=5, max_states=250, max_inst=60, walk=120)}
 
 
